@@ -408,7 +408,19 @@ def check(pid, tier, seed):
         # the driver may still be buildable (it does not import proofs)
         ok_d, out_d = lake_build(["driver"])
         if not ok_d:
-            framework_errors.append("driver does not build: " + out_d[-2000:])
+            # `driver` refers to the definitions generated from the source (third voice, Driver/Src.lean): when a
+            # translated function changed its signature it no longer elaborates. The correspondence between the
+            # implementation and the hand-written model must still run: fall back to the driver without that voice.
+            ok_n, out_n = lake_build(["driver_nosrc"])
+            if ok_n:
+                global DRIVER
+                DRIVER = os.path.join(LEAN, ".lake", "build", "bin", "driver_nosrc")
+                derrs = [l for l in out_d.split("\n") if l.startswith("error")]
+                broken.append({"what": "corr:src-voice-build",
+                               "detail": "the driver's third voice (generated definitions) no longer elaborates:\n"
+                                         + "\n".join(derrs[:20])})
+            else:
+                framework_errors.append("driver does not build: " + out_n[-2000:])
 
     # 3. audit
     thms = {}
